@@ -8,6 +8,7 @@ package main
 
 import (
 	"fmt"
+	"os"
 	"runtime"
 	"strings"
 
@@ -83,7 +84,7 @@ func shares(x, y []int) bool {
 	return false
 }
 
-func setupFor(nStripes int, uni [][]byte, keyLists [][]int) func() *schedmc.Exec {
+func setupFor(nStripes int, uni [][]byte, keyLists [][]int, stale bool) func() *schedmc.Exec {
 	return func() *schedmc.Exec {
 		m := latch.NewManager(nStripes)
 		inside := make([]bool, len(keyLists))
@@ -102,6 +103,13 @@ func setupFor(nStripes int, uni [][]byte, keyLists [][]int) func() *schedmc.Exec
 				vsched.Named("critical-section")
 				inside[i] = false
 				g.Release()
+				// the redundant Release may come arbitrarily later (explicit + deferred release):
+				// other requests may acquire and sit in their critical sections in between.
+				if stale && (i == 0 || len(keyLists) == 2) {
+					// with three threads only thread 0 releases late (the roles of the other two are
+					// covered by permuting the key lists)
+					vsched.Named("between-releases")
+				}
 				g.Release()
 				finished[i] = true
 			})
@@ -134,12 +142,16 @@ func setupFor(nStripes int, uni [][]byte, keyLists [][]int) func() *schedmc.Exec
 type job struct {
 	stripes int
 	lists   [][]int
+	stale   bool // scheduling point between the first and the redundant Release
 }
 
 func (j job) name() string {
 	var parts []string
 	for _, l := range j.lists {
 		parts = append(parts, name(l))
+	}
+	if j.stale {
+		return fmt.Sprintf("s%d-stale:%s", j.stripes, strings.Join(parts, "|"))
 	}
 	return fmt.Sprintf("s%d:%s", j.stripes, strings.Join(parts, "|"))
 }
@@ -155,7 +167,7 @@ func jobs(thorough bool) []job {
 		}
 		for _, x := range two {
 			for _, y := range two {
-				out = append(out, job{st, [][]int{x, y}})
+				out = append(out, job{st, [][]int{x, y}, false})
 			}
 		}
 	}
@@ -166,7 +178,24 @@ func jobs(thorough bool) []job {
 	for _, x := range three {
 		for _, y := range three {
 			for _, z := range three {
-				out = append(out, job{2, [][]int{x, y, z}})
+				out = append(out, job{2, [][]int{x, y, z}, false})
+			}
+		}
+	}
+	// late redundant Release: 2 threads (lists up to 2, 3 thorough), 3 threads (lists up to 1, 2 thorough)
+	two := l2
+	if thorough {
+		two = l3
+	}
+	for _, x := range two {
+		for _, y := range two {
+			out = append(out, job{2, [][]int{x, y}, true})
+		}
+	}
+	for _, x := range three {
+		for _, y := range three {
+			for _, z := range three {
+				out = append(out, job{2, [][]int{x, y, z}, true})
 			}
 		}
 	}
@@ -184,7 +213,7 @@ func main() {
 		for _, j := range jobs(true) {
 			if j.name() == rp.Harness {
 				uni := keyUniverse(j.stripes)
-				sig, desc, tr := schedmc.Replay(setupFor(j.stripes, uni, j.lists), schedmc.Options{Name: j.name(), Exclusive: true, Bound: -1}, rp.Choices)
+				sig, desc, tr := schedmc.Replay(setupFor(j.stripes, uni, j.lists, j.stale), schedmc.Options{Name: j.name(), Exclusive: true, Bound: -1, SoftNondeterminism: true}, rp.Choices)
 				fmt.Println("replay trace:", tr)
 				if sig != "" {
 					r.Violation(sig, desc, rp)
@@ -195,6 +224,15 @@ func main() {
 		vr.Fatalf("unknown harness %q", rp.Harness)
 	}
 	js := jobs(r.Thorough())
+	if only := os.Getenv("VERIF_ONLY_FAMILY"); only != "" { // debugging aid: "stale" or "plain"
+		var keep []job
+		for _, j := range js {
+			if j.stale == (only == "stale") {
+				keep = append(keep, j)
+			}
+		}
+		js = keep
+	}
 	total := r.RunSharded(vr.Workers(), func(sh vr.ShardInfo, p *vr.Partial) {
 		runtime.GOMAXPROCS(1)
 		unis := map[int][][]byte{2: keyUniverse(2), 8: keyUniverse(8)}
@@ -208,7 +246,7 @@ func main() {
 				break
 			}
 			sub := vr.NewPartial()
-			schedmc.Explore(setupFor(j.stripes, unis[j.stripes], j.lists), schedmc.Options{Name: j.name(), Bound: -1, Exclusive: true}, one, sub, r.Expired)
+			schedmc.Explore(setupFor(j.stripes, unis[j.stripes], j.lists, j.stale), schedmc.Options{Name: j.name(), Bound: -1, Exclusive: true, SoftNondeterminism: true}, one, sub, r.Expired)
 			// canonical signatures: drop the concrete key-list job from the signature, keep it in the replay
 			for k := range sub.Violations {
 				v := &sub.Violations[k]
@@ -223,12 +261,17 @@ func main() {
 			p.Merge(sub)
 		}
 	})
+	if n := total.Counters["unreproducible_failures"] + total.Counters["diverged_replays"]; n > 0 && len(total.Violations) == 0 {
+		// executions failed or diverged in a way that could not be reproduced and no reproducible
+		// violation explains it: neither a pass nor a reportable violation
+		vr.Fatalf("%d executions failed or diverged unreproducibly (state carried between executions?) and no reproducible violation was found", n)
+	}
 	r.RequireOutcomes(total.Counters["jobs_with_contention"], 10)
 	r.Finish(vr.Coverage{
 		Level:       "model_checking",
 		Evaluations: total.Counters["executions"],
 		Distinct:    total.Counters["jobs_with_contention"],
-		Rule:        "for every tuple of key lists (2 threads: lists up to length 3; 3 threads: lists up to length 1 quick / 2 thorough; symbols: empty key, a, b, c with a,b forced onto one stripe when the manager has 2 stripes) ALL interleavings of Acquire / critical section / Release / Release on the real latch manager are executed (no preemption bound); non-trivial = key-list tuples whose threads were observed entering the critical section in more than one order",
+		Rule:        "for every tuple of key lists (2 threads: lists up to length 3; 3 threads: lists up to length 1 quick / 2 thorough; symbols: empty key, a, b, c with a,b forced onto one stripe when the manager has 2 stripes) ALL interleavings of Acquire / critical section / Release / redundant Release on the real latch manager are executed (no preemption bound); the '-stale' family (2 stripes) repeats the tuples with a scheduling point between the first and the redundant Release, so other requests acquire and enter their critical sections in between; non-trivial = key-list tuples whose threads were observed entering the critical section in more than one order",
 		Samples:     total.SamplesAny(),
 		States:      total.Counters["steps"],
 		Transitions: total.Counters["steps"],
@@ -237,6 +280,6 @@ func main() {
 		Outcomes:    total.Card("outcomes"),
 		Bounds:      map[string]any{"key_list_tuples": total.Counters["jobs"], "stripes": []int{2, 8}, "preemption_bound": "unbounded"},
 		Extra:       map[string]any{"schedules": total.Counters["executions"], "max_decisions_per_schedule": total.Counters["max_decisions"]},
-		Assumptions: []string{"scheduling points: every mutex operation of percolator/latch/latch.go plus one named point inside the critical section", "kv.MemHash is seeded per process: concrete keys for the stripe roles are searched for in each worker process"},
+		Assumptions: []string{"scheduling points: every mutex operation of percolator/latch/latch.go plus one named point inside the critical section and one between the first and the redundant Release", "kv.MemHash is seeded per process: concrete keys for the stripe roles are searched for in each worker process"},
 	})
 }
